@@ -22,7 +22,7 @@ use metrique::{
 use metrique_core::CloseEntry;
 use serde_json::{Value, json};
 use std::cell::Cell;
-use std::collections::{HashMap, HashSet};
+use std::collections::HashMap;
 use std::future::Future;
 use std::io::Write;
 use std::sync::{Arc, Barrier, Mutex};
@@ -66,9 +66,23 @@ pub struct SubClosed {
     idx: u8,
     v: u64,
 }
+/// free-running scenarios: the slot value's close takes this long (microseconds, seeded per
+/// scenario), which widens the window between the begin of SlotGuard::drop and its send
+static CLOSE_SPIN_US: std::sync::atomic::AtomicU64 = std::sync::atomic::AtomicU64::new(0);
+
 impl CloseValue for Sub {
     type Closed = SubClosed;
+    /// Runs inside `SlotGuard::drop`, before the value is sent: a scheduling point "the guard's
+    /// thread is closing its value" (user code, arbitrarily slow).
     fn close(self) -> SubClosed {
+        sched::point("h.slot_close", &[self.idx as i64]);
+        let us = CLOSE_SPIN_US.load(std::sync::atomic::Ordering::Relaxed);
+        if us > 0 {
+            let t = Instant::now();
+            while t.elapsed() < Duration::from_micros(us) {
+                std::hint::spin_loop();
+            }
+        }
         SubClosed { idx: self.idx, v: self.v }
     }
 }
@@ -103,6 +117,7 @@ struct EntryB {
 thread_local! {
     /// how long `wait_for_data` may take before the harness gives up (and drops the future)
     static WAIT_BUDGET: Cell<Duration> = const { Cell::new(Duration::from_secs(10)) };
+    static WAIT_EXPIRY_IS_DRIFT: Cell<bool> = const { Cell::new(false) };
 }
 
 /// Ok(value handed back) or Err(()) when the data did not arrive within the budget
@@ -422,7 +437,18 @@ where
             Ok(r) => r.map(|v| v as i64).unwrap_or(-1),
             Err(()) => -2,
         };
-        trace::ev(json!({"ev": if v == -2 { "WaitTimeout" } else { "Waited" }, "i": s, "v": v}));
+        // Only where the wait depends on nothing but the code under test is an expiry an
+        // observation of that code (sequential replay: nothing else runs, the first poll decides;
+        // free-running: 10 s budget). In scheduled replay the value may be late merely because a
+        // gated thread was slow to arrive on a loaded machine: skipped observation, MODEL-DRIFT.
+        let name = if v != -2 {
+            "Waited"
+        } else if WAIT_EXPIRY_IS_DRIFT.with(|d| d.get()) {
+            "WaitSkipped"
+        } else {
+            "WaitTimeout"
+        };
+        trace::ev(json!({"ev": name, "i": s, "v": v}));
         Some(v)
     }
     fn take(&mut self, k: &str, i: usize) -> Option<Obj<E>> {
@@ -654,6 +680,7 @@ const GATING: &[&str] = &[
     "ka.fd_taken",
     "ka.fd_called",
     "ka.sg_sent",
+    "h.slot_close",
     "h.em_begin",
     "h.em_mid",
     "h.em_append",
@@ -672,24 +699,41 @@ fn actor_id(k: &str, i: usize) -> u32 {
 
 struct Stepper {
     ctrl: Arc<sched::Controller>,
-    own_sg: HashSet<u32>,
+    /// slot-guard actors: how many of their own two points (h.slot_close, ka.sg_sent) are still ahead
+    own_sg: HashMap<u32, u8>,
     drift: Vec<Value>,
 }
 impl Stepper {
-    /// skip `ka.sg_sent` arrivals that are not the acting slot guard's own (the closing entry
-    /// drops the guard of a never-opened `Slot`, which runs `SlotGuard::drop` in the emitter)
+    /// skip `h.slot_close` / `ka.sg_sent` arrivals that are not the acting slot guard's own (the
+    /// closing entry drops the guard of a never-opened `Slot`, which runs `SlotGuard::drop` in the emitter)
     fn settle(&mut self, a: u32, mut arr: Arrival) -> Arrival {
         loop {
             match &arr {
-                Arrival::At(n, _) if *n == "ka.sg_sent" => {
-                    if self.own_sg.remove(&a) {
-                        return arr;
+                Arrival::At(n, _) if *n == "ka.sg_sent" || *n == "h.slot_close" => {
+                    if let Some(c) = self.own_sg.get_mut(&a) {
+                        if *c > 0 {
+                            *c -= 1;
+                            return arr;
+                        }
                     }
                     arr = self.ctrl.step(a, STEP_TIMEOUT);
                 }
                 _ => return arr,
             }
         }
+    }
+    /// The acting thread began to close the entry although the model predicts no emission by it:
+    /// schedule-guided replay lets the real code do what it decided to do, right now, while every
+    /// other actor stays parked (the trace then shows the emission at the moment it really began).
+    fn unpredicted_emission(&mut self, n: usize, action: &str, a: u32, mut arr: Arrival) -> Arrival {
+        if !matches!(arr, Arrival::At("h.em_begin", _)) {
+            return arr;
+        }
+        self.drift.push(json!({"step": n, "action": action, "why": "the real code begins to close the entry here, the model predicts no emission by this thread; emission run to completion"}));
+        while matches!(arr, Arrival::At("h.em_begin", _) | Arrival::At("h.em_mid", _) | Arrival::At("h.em_append", _)) {
+            arr = self.grant(a);
+        }
+        arr
     }
     fn arrive(&mut self, a: u32) -> Arrival {
         let arr = self.ctrl.wait_arrival(a, STEP_TIMEOUT);
@@ -716,6 +760,7 @@ fn expected_after(action: &str) -> &'static [&'static str] {
         "FTake" => &["ka.fd_taken", "<finished>"],
         "FCall" => &["ka.fd_called", "h.em_begin"],
         "FRelease" => &["<finished>"],
+        "SBegin" => &["h.slot_close"],
         "SSendwait" | "SSenddiscard" => &["ka.sg_sent"],
         "SRelease" => &["<finished>", "h.em_begin"],
         "DropOwner1" | "DropHandle" | "DropGuard" => &["<finished>", "h.em_begin"],
@@ -725,12 +770,22 @@ fn expected_after(action: &str) -> &'static [&'static str] {
     }
 }
 
+/// does the schedule contain, after step `from`, an emission step of actor `a`?
+fn emits_later(steps: &[Value], from: usize, a: u32) -> bool {
+    steps.iter().skip(from + 1).any(|s| {
+        let act = s[0].as_str().unwrap_or("");
+        (act == "EmitRead" || act == "EmitAppend")
+            && actor_id(s[1].as_str().unwrap_or(""), s[2].as_u64().unwrap_or(0) as usize) == a
+    })
+}
+
 fn sched_one<E: KaEntry>(sc: &Value) -> Value
 where
     SnapSink: EntrySink<RootMetric<E>>,
 {
     snaps_clear();
     WAIT_BUDGET.with(|b| b.set(Duration::from_millis(300)));
+    WAIT_EXPIRY_IS_DRIFT.with(|d| d.set(true));
     let ctrl = sched::controller();
     let mut actors: Vec<u32> = vec![1];
     for base in [10u32, 20, 30, 40] {
@@ -751,7 +806,7 @@ where
         init[3].as_u64().unwrap() as usize,
         &modes_of(&init[4]),
     );
-    let mut st = Stepper { ctrl: ctrl.clone(), own_sg: HashSet::new(), drift: Vec::new() };
+    let mut st = Stepper { ctrl: ctrl.clone(), own_sg: HashMap::new(), drift: Vec::new() };
     let unwind_steps: Vec<u64> = sc["unwind"].as_array().map(|a| a.iter().filter_map(|x| x.as_u64()).collect()).unwrap_or_default();
     // Operations of the controlling thread (new_guard, open, ...) run real code: if that code
     // blocks on something a gated actor holds (it does not on the unchanged tree), the replay
@@ -780,15 +835,17 @@ where
             "OpenSlotdiscard" => w.open(i, "discard") == Some(true),
             "WaitForData" => {
                 // a LazySlot has no wait_for_data: the value stays in the channel (same observation)
-                w.wait(i);
+                if w.wait(i) == Some(-2) {
+                    st.drift.push(json!({"step": n, "action": action, "why": "wait_for_data not ready within 300 ms; observation skipped"}));
+                }
                 true
             }
             "MutSlot" => w.mut_slot(i),
-            "DropOwner1" | "DropHandle" | "DropGuard" | "FUpgrade" | "SSendwait" | "SSenddiscard" => {
+            "DropOwner1" | "DropHandle" | "DropGuard" | "FUpgrade" | "SBegin" => {
                 match w.take(k, i) {
                     Some(o) => {
                         if k == "s" {
-                            st.own_sg.insert(a);
+                            st.own_sg.insert(a, 2);
                         }
                         let kk = k.to_string();
                         let tag = tag_of(k, i);
@@ -799,13 +856,10 @@ where
                             let _ = timed_drop_how(&kk, i, o, unwind);
                         }));
                         let mut arr = st.arrive(a);
-                        if action == "SSenddiscard" && matches!(arr, Arrival::At("ka.sg_sent", _)) {
-                            // a discard-mode guard has nothing left to do after the send
-                            arr = st.grant(a);
-                            if arr != Arrival::Finished {
-                                st.drift.push(json!({"step": n, "action": action, "arrived": point_name(&arr), "expected": ["<finished>"]}));
-                            }
-                        } else if !expected_after(action).contains(&point_name(&arr).as_str()) {
+                        if !emits_later(&steps[1..], n, a) {
+                            arr = st.unpredicted_emission(n, action, a, arr);
+                        }
+                        if !expected_after(action).contains(&point_name(&arr).as_str()) {
                             st.drift.push(json!({"step": n, "action": action, "arrived": point_name(&arr), "expected": expected_after(action)}));
                         }
                         true
@@ -813,10 +867,21 @@ where
                     None => false,
                 }
             }
-            "FTake" | "FCall" | "FRelease" | "SRelease" | "EmitRead" | "EmitAppend" => {
+            "FTake" | "FCall" | "FRelease" | "SSendwait" | "SSenddiscard" | "SRelease" | "EmitRead" | "EmitAppend" => {
                 match ctrl.peek(a) {
                     Arrival::At(at, _) => {
                         let mut arr = st.grant(a);
+                        if action == "SSenddiscard" && matches!(arr, Arrival::At("ka.sg_sent", _)) {
+                            // a discard-mode guard has nothing left to do after the send
+                            let fin = st.grant(a);
+                            if fin != Arrival::Finished {
+                                st.drift.push(json!({"step": n, "action": action, "arrived": point_name(&fin), "expected": ["<finished>"]}));
+                            }
+                            arr = Arrival::At("ka.sg_sent", vec![]);
+                        }
+                        if action != "EmitRead" && action != "EmitAppend" && !emits_later(&steps[1..], n, a) {
+                            arr = st.unpredicted_emission(n, action, a, arr);
+                        }
                         if action == "EmitAppend" && at != "h.em_append" {
                             // the model has fewer slots than the real entry has slot fields: run the
                             // emission to its end
@@ -938,6 +1003,7 @@ where
     } else {
         ctrl.free_run();
     }
+    CLOSE_SPIN_US.store(sc["close_spin_us"].as_u64().unwrap_or(0), std::sync::atomic::Ordering::Relaxed);
     let delay = sc["delay"].as_bool().unwrap_or(false);
     let mut w: World<E> = World::new(delay);
     // sequential prologue in the main thread (creations, early drops, mutations)
